@@ -39,7 +39,7 @@ func init() {
 		ID: "C17",
 		Explanation: "Decided: (R1) every store into a view's member table stores a Clone() or a state freshly built by the decoder, Snapshot clones members and vector; (R2) nothing reachable from the merge removes a member or replaces the member table; (R3) each member store in AddMember / merge is on the edge 'absent ∨ incoming.IsNewerThan(existing)' with existing looked up under the same key and the roles not swapped; " +
 			"(R4) Epoch, Timestamp and ProtocolVersion are assigned from the other view only on the edge other.F > own.F; (R5) inside the merge the version vector is assigned only from Merge(own, other) or PruneWithMax; (R6) every member store inside the merge sets changed=true on the same path, and the vector assignment is preceded by an Equal test whose not-equal edge sets it; the result is a monotone chain. " +
-			"(R7) IsNewerThan treats a missing state as older and lets a differing generation decide alone, with the greater generation newer. (R3, addition) the converse: once the lookup found an entry, every path to the next iteration or a return either performs the store or takes the false edge of incoming.IsNewerThan(existing) — no further condition (clock skew, local status, strategy) keeps a newer incarnation out. (R11 = C16.R8) the vector equality that decides the vector part of the changed flag is exact: Equal is Compare == equal (or a direct implementation that checks both operands entry by entry), never a one-sided containment test, so a merge that only adds components is reported as a change. (R10 = C16.R5) the vector join the merge relies on is the pointwise maximum by the shape of its loops: no component is lowered and none is left below either operand's, whatever the sizes of the two vectors. NOT decided: commutativity / associativity / idempotence of the produced membership, consistency of the clock/timestamp tie-breakers of IsNewerThan, the interaction of pruning with 'changed'.",
+			"(R7) IsNewerThan treats a missing state as older and lets a differing generation decide alone, with the greater generation newer. (R7, addition) every ordering test in IsNewerThan compares the same field of the two states, loaded directly, and no arithmetic touches a field of a state (a counter difference — the wrap-safe idiom — is cyclic and makes the order intransitive). (R9, addition) the compaction cuts the list of ids to keep only by the caller's cap or the package default, never by a quantity of the vector itself. (R3, addition) the converse: once the lookup found an entry, every path to the next iteration or a return either performs the store or takes the false edge of incoming.IsNewerThan(existing) — no further condition (clock skew, local status, strategy) keeps a newer incarnation out. (R11 = C16.R8) the vector equality that decides the vector part of the changed flag is exact: Equal is Compare == equal (or a direct implementation that checks both operands entry by entry), never a one-sided containment test, so a merge that only adds components is reported as a change. (R10 = C16.R5) the vector join the merge relies on is the pointwise maximum by the shape of its loops: no component is lowered and none is left below either operand's, whatever the sizes of the two vectors. NOT decided: commutativity / associativity / idempotence of the produced membership, consistency of the clock/timestamp tie-breakers of IsNewerThan, the interaction of pruning with 'changed'.",
 		Rules: []Rule{
 			{ID: "C17.R1", Min: 4, Desc: "stored member states are clones", Fn: c17Clones},
 			{ID: "C17.R2", Min: 1, Desc: "merge never removes", Fn: c17NeverRemoves},
@@ -47,7 +47,7 @@ func init() {
 			{ID: "C17.R4", Min: 3, Desc: "monotone scalars", Fn: c17Monotone},
 			{ID: "C17.R5", Min: 2, Desc: "vector only joins / prunes", Fn: c17VectorAssign},
 			{ID: "C17.R6", Min: 3, Desc: "changed flag is sound", Fn: c17Changed},
-			{ID: "C17.R7", Min: 2, Desc: "incarnation order: generation decides first", Fn: c17Generation},
+			{ID: "C17.R7", Min: 3, Desc: "incarnation order: generation decides first", Fn: c17Generation},
 			{ID: "C17.R10", Min: 3, Desc: "the version vector join never lowers a component (C16.R5)", Fn: c16PointwiseMax},
 			{ID: "C17.R11", Min: 1, Desc: "the equality the changed flag relies on is exact, not containment (C16.R8)", Fn: c16EqualExact},
 			{ID: "C17.R9", Min: 1, Desc: "vector compaction keeps the component of every member still in the table", Fn: c17PruneKeepsMembers},
@@ -57,12 +57,14 @@ func init() {
 	register(&Property{
 		ID: "C18",
 		Explanation: "Convergence, exact membership and stability quantify over fault sequences, delivery orders and timer phases of a distributed run; no static argument in reach bounds them and they are NOT decided. Structural necessary conditions are decided: (R1) the leader is a deterministic function of the membership view — the leader computation reaches no nondeterminism source (random numbers, clocks, package-level mutable state), reads only member address and status, sorts (or min-reduces) what it collects from the map before indexing it, and the publisher derives IAmLeader from that value only. " +
-			"(R2) the gossip suppression predicate answers 'send' whenever the peer's vector is unknown or the own vector is After / Concurrent with respect to it, and 'skip' only when it is Before or Equal (truth table of the predicate over its atoms). (R3) the generation bump of a re-joining node reads the previous incarnation from the seed's reply (directly, or from the own view after merging the reply). (R4) the leader publisher computes the leader on every call (only nil-context / nil-view / nil-stream edges return before it): views change without the version vector moving (a suspected member revived by gossip), so caching on the vector leaves two self-proclaimed leaders; (R5) the target selector ranges over the configured seed list itself on every path — never over a value that some path replaced by a constant: gossip to non-member seeds is the only way two disjoint islands find each other; and every function the module injects as the selector's seed source returns the result of a call made inside it (a method value of the provider), never a list captured when the node was built — with a resolver configured the seed set changes after start-up. (R2, addition) the table the suppression predicate consults is written only with vectors that arrived in a message, never with the node's own vector after a send; (R6) in the join attempt every failure to ask a seed (time-outs included) is assigned to the error the attempt finally returns, so an attempt in which no seed answered is never reported as success and the retry timer is re-armed; (R7 = C16.R8) the vector equality the suppression predicate relies on is exact, not containment: a peer whose vector is a strict subset of the own one is still sent to. (R8) the token buckets every gossip send and every join request pass through conserve elapsed time: no truncation lies between the subtraction that reads the refill instant and the stored token count, or else the refill instant advances from its previous value — a bucket that truncates and resets never refills when polled faster than one token period, and the node stops gossiping for good. Any other mutation in join, target selection or failure detection is NOT detected.",
+			"(R2) the gossip suppression predicate answers 'send' whenever the peer's vector is unknown or the own vector is After / Concurrent with respect to it, and 'skip' only when it is Before or Equal (truth table of the predicate over its atoms). (R3) the generation bump of a re-joining node reads the previous incarnation from the seed's reply (directly, or from the own view after merging the reply). (R4) the leader publisher computes the leader on every call (only nil-context / nil-view / nil-stream edges return before it): views change without the version vector moving (a suspected member revived by gossip), so caching on the vector leaves two self-proclaimed leaders; (R5) the target selector ranges over the configured seed list itself on every path — never over a value that some path replaced by a constant: gossip to non-member seeds is the only way two disjoint islands find each other; and every function the module injects as the selector's seed source returns the result of a call made inside it (a method value of the provider), never a list captured when the node was built — with a resolver configured the seed set changes after start-up. (R2, addition) the table the suppression predicate consults is written only with vectors that arrived in a message, never with the node's own vector after a send; (R6) in the join attempt every failure to ask a seed (time-outs included) is assigned to the error the attempt finally returns, so an attempt in which no seed answered is never reported as success and the retry timer is re-armed; (R7 = C16.R8) the vector equality the suppression predicate relies on is exact, not containment: a peer whose vector is a strict subset of the own one is still sent to. (R8) the token buckets every gossip send and every join request pass through conserve elapsed time: no truncation lies between the subtraction that reads the refill instant and the stored token count, or else the refill instant advances from its previous value — a bucket that truncates and resets never refills when polled faster than one token period, and the node stops gossiping for good. (R9) in every method of the node actor every path through a start of the gossip loop (direct or through a helper) also starts the failure-detection loop: a node that joined on a retry evicts crashed members like one that joined at once. (R10) the failure detector's timeout function returns zero (which makes the detection round skip the member) only on the edge on which a timeout loaded directly from the options is not positive; every other return is positive by construction. Any other mutation in join, target selection or failure detection is NOT detected.",
 		Rules: []Rule{
 			{ID: "C18.R1", Min: 4, Desc: "leader is a deterministic function of the view", Fn: c18Leader},
 			{ID: "C18.R2", Min: 6, Desc: "gossip is suppressed only towards peers known to be at least as new", Fn: c18Suppression},
 			{ID: "C18.R7", Min: 1, Desc: "the equality the gossip suppression relies on is exact, not containment (C16.R8)", Fn: c16EqualExact},
 			{ID: "C18.R8", Min: 2, Desc: "the gossip/join token buckets conserve elapsed time (no truncated credit with a reset refill instant)", Fn: c18BucketConservesTime},
+			{ID: "C18.R9", Min: 3, Desc: "wherever the node starts gossiping it also starts failure detection", Fn: c18LoopsStartTogether},
+			{ID: "C18.R10", Min: 3, Desc: "the failure-detection timeout is zero only when detection is switched off", Fn: c18TimeoutNeverSilentlyZero},
 			{ID: "C18.R4", Min: 1, Desc: "the leader is re-evaluated on every call of the publisher", Fn: c18AlwaysEvaluates},
 			{ID: "C18.R5", Min: 2, Desc: "configured seeds stay gossip candidates whatever the view holds", Fn: c18SeedsAlwaysCandidates},
 			{ID: "C18.R6", Min: 1, Desc: "a join attempt in which a seed could not be asked is reported as failed (so the retry timer is re-armed)", Fn: c18JoinReportsFailure},
@@ -1411,6 +1413,50 @@ func c17Generation(p *Program, r *Report) {
 		return
 	}
 	g := p.ig(fn)
+	// the order is built from plain comparisons only: every ordering test compares the SAME field of the two states, loaded
+	// directly, and no arithmetic is done on a field of a state. Values touched only through </>/== of like fields give a
+	// lexicographic order of total orders — a total order; a difference (`int64(a.Clock-b.Clock) > 0`, the wrap-safe idiom) is
+	// cyclic beyond 2^63 and makes "newer" intransitive: merges in different orders keep different incarnations.
+	plain := true
+	var plainPos token.Pos = fn.Pos()
+	plainWhy := ""
+	fieldOfState := func(v ssa.Value) (*types.Var, ssa.Value) {
+		f, base := fieldLoad(v)
+		if f != nil && fieldVar(vr.State, f.Name()) == f {
+			return f, base
+		}
+		return nil, nil
+	}
+	for _, in := range g.Nodes {
+		bo, ok := in.(*ssa.BinOp)
+		if !ok {
+			continue
+		}
+		fx, bx := fieldOfState(bo.X)
+		fy, by := fieldOfState(bo.Y)
+		switch bo.Op {
+		case token.LSS, token.GTR, token.LEQ, token.GEQ:
+			if fx == nil || fy == nil || fx != fy || strip(bx) == strip(by) {
+				_, cx := strip(bo.X).(*ssa.Const)
+				_, cy := strip(bo.Y).(*ssa.Const)
+				if (fx != nil && cy) || (fy != nil && cx) {
+					continue // a field against a constant
+				}
+				plain, plainPos, plainWhy = false, bo.Pos(), "an ordering test whose operands are not the same field of the two states"
+			}
+		case token.EQL, token.NEQ:
+		default:
+			if fx != nil || fy != nil {
+				plain, plainPos, plainWhy = false, bo.Pos(), "arithmetic ("+bo.Op.String()+") on field "+map[bool]string{true: "", false: ""}[true]
+				if fx != nil {
+					plainWhy += fx.Name()
+				} else {
+					plainWhy += fy.Name()
+				}
+			}
+		}
+	}
+	r.Check(plain, "incarnation order uses plain comparisons of like fields", plainPos, map[bool]string{true: "every ordering test in IsNewerThan compares the same field of the two states (or a field with a constant) and no arithmetic touches a field: the order is a lexicographic combination of total orders", false: plainWhy + ": the relation need not be a total order any more (a difference of counters is cyclic), so the merge result depends on the merge order"}[plain])
 	recv, other := fn.Params[0], fn.Params[1]
 	// other == nil ⇒ true
 	nilE := g.edgesWhere(func(f cmpFact) bool { return f.IsNil && f.Op == token.EQL && strip(f.X) == ssa.Value(other) })
@@ -1652,6 +1698,7 @@ func c17PruneKeepsMembers(p *Program, r *Report) {
 		r.Unresolved("cluster view roles")
 		return
 	}
+	c17PruneLimit(p, r)
 	n := 0
 	for _, fn := range p.methodsOf(vr.View) {
 		g := p.ig(fn)
@@ -2095,5 +2142,59 @@ func c18JoinReportsFailure(p *Program, r *Report) {
 	}
 	if n == 0 {
 		r.Unresolved("no join attempt (cluster routine returning an error that asks seeds in a loop)")
+	}
+}
+
+// c17PruneLimit: inside the compaction the list of ids to keep is cut only by the caller's cap (or the package default): the bound of
+// every re-slice of that list is a phi of the cap parameter and constants — never a quantity of the vector being compacted
+// (its length): a member that has no component YET is still a member, and cutting the id list to the vector's size drops the
+// component of whichever member sorts last.
+func c17PruneLimit(p *Program, r *Report) {
+	vv := p.Named("internal/cluster", "VersionVector")
+	if vv == nil {
+		return
+	}
+	for _, fn := range p.methodsOf(vv) {
+		if len(fn.Blocks) == 0 || len(fn.Params) < 3 || !isStringSlice(fn.Params[1].Type()) {
+			continue
+		}
+		bt, isB := fn.Params[2].Type().Underlying().(*types.Basic)
+		if !isB || bt.Info()&types.IsInteger == 0 {
+			continue
+		}
+		for _, b := range fn.Blocks {
+			for _, in := range b.Instrs {
+				sl, ok := in.(*ssa.Slice)
+				if !ok || sl.High == nil || !isStringSlice(sl.X.Type()) {
+					continue
+				}
+				bad := ""
+				seen := map[ssa.Value]bool{}
+				var walk func(v ssa.Value)
+				walk = func(v ssa.Value) {
+					if v == nil || seen[v] || bad != "" {
+						return
+					}
+					seen[v] = true
+					switch x := v.(type) {
+					case *ssa.Const:
+					case *ssa.Parameter:
+						if x != fn.Params[2] {
+							bad = "parameter " + x.Name()
+						}
+					case *ssa.Phi:
+						for _, e := range x.Edges {
+							walk(e)
+						}
+					case *ssa.Convert:
+						walk(x.X)
+					default:
+						bad = fmt.Sprintf("%s", v.String())
+					}
+				}
+				walk(sl.High)
+				r.Check(bad == "", "compaction cuts the id list only by the configured cap ("+fn.Name()+")", sl.Pos(), map[bool]string{true: "the bound of the re-slice of the ids to keep is a phi of the cap parameter and constants", false: "the bound depends on " + bad + ": a quantity other than the caller's cap decides how many members keep their component"}[bad == ""])
+			}
+		}
 	}
 }
